@@ -1,12 +1,13 @@
 import BdModel.Load.Build
 import BdModel.Load.Effects
+import BdModel.Load.Display
 import Driver.Util
 /-
   `driver load`: one case per line
       <id> o<k> <hex>:<cron><re><sig> …(k oracle entries)  <tree tokens>
   tree tokens (prefix order): n | t | f | i<dec> | d<yaml float text> | s<hex utf-8> | l<count> … | m<count> (k v)…
   answer:  <id>|LoadYAML=<res>[~<alt>…]|LoadMetadata=…|LoadWithoutEval=…|Load=…
-  `driver effects`: prints the model's reach matrix (C19).
+  `driver effects`: prints the model's reach matrix (C19); `display`: the display-path matrix (C19).
 -/
 namespace Driver.Load
 open BdModel.Load Driver
@@ -148,8 +149,17 @@ def effectsLine : String :=
       e ++ ":" ++ f ++ "=" ++ ",".intercalate ((Effects.reach T e f).map (fun x => x.fn ++ "/" ++ x.callee ++ "#" ++ x.idx))
   "effects|" ++ "|".intercalate cells
 
+/-- the model's display matrix (C19): `display|<entry>=<fn>/<callee>#<idx>,…;<loader>,…|…` for every display and start entry -/
+def displayLine : String :=
+  let D := Display.canonD
+  let cells := (Display.displayEntries ++ Display.startEntries).map fun e =>
+    e ++ "=" ++ ",".intercalate ((Display.effectsFrom D e).map (fun x => x.fn ++ "/" ++ x.callee ++ "#" ++ x.idx))
+      ++ ";" ++ ",".intercalate (Display.loadersFrom D e)
+  "display|" ++ "|".intercalate cells
+
 def runLine (line : String) : String :=
   if line == "effects" then effectsLine else
+  if line == "display" then displayLine else
   match words line with
   | id :: ocount :: rest =>
     let k := ((ocount.drop 1).toString.toNat?).getD 0
